@@ -1303,6 +1303,17 @@ class _Interp:
             for o in kw[X.NUMPY_OUT_KW].origins:
                 self.record(o, "inplace", None, e)
         copy_kw = next((k.value for k in e.keywords if k.arg == "copy"), None)
+        if dotted.split(".")[-1] in ("nan_to_num", "clip", "put", "place", "putmask", "copyto", "fill_diagonal") and pos:
+            # numpy functions that write their first argument: always (put / place / putmask / copyto / fill_diagonal) or when asked to
+            # work in place (nan_to_num(x, copy=False))
+            last = dotted.split(".")[-1]
+            in_place = last in ("put", "place", "putmask", "copyto", "fill_diagonal") or \
+                (last == "nan_to_num" and "copy" in kw and not (isinstance(copy_kw, ast.Constant) and copy_kw.value is True))
+            if in_place:
+                for o in pos[0].origins:
+                    self.record(o, "inplace", None, e)
+                if last == "nan_to_num":
+                    return pos[0].with_(types=(), funcs=(), lits=())
         if dotted == "numpy.array" and "copy" in kw and not (isinstance(copy_kw, ast.Constant) and copy_kw.value is True):
             # np.array(x, copy=False) may alias
             return join(pos[0] if pos else BOTTOM, AV(origins=[("F", self.site(e, "array"))]))
